@@ -1,7 +1,9 @@
 """C02 — optimisation never changes observable behaviour.
 
   proof  : lean/CV/Props/C02.lean (structural invariants of the optimiser by induction on its loop;
-           what each removal/exchange changes, for all machine states and operands)
+           what each removal/exchange changes, for all machine states and operands; soundness of the
+           translation validator CV.Valid.validate: an accepted pair of functions returns in the same
+           state or not at all, from every machine state, with no bound on steps)
   tie    : optimize() on random vectors biased to its rules, and every -O0 function dump of every
            compiled program, against CV.Opt.optimize (text + removed count)
   search : co-execution: every accepted program at -O0 vs -O1, -O2, -O3 from generated initial
@@ -13,7 +15,10 @@ import prog, gasm, gen_c, coexec
 TRUSTED = ["Lean 4 kernel; axioms allowed: propext, Classical.choice, Quot.sound",
            "specification: CV/Mos.lean (6502 semantics, binary mode), CV/Exec.lean (line-level execution of functions)",
            "tie: differential testing of CV.Opt.optimize against AssemblyCode::optimize",
-           "liveness of the flags left different by a removal is decided per program by co-execution, not proved"]
+           "translation validation: the loader's conversion of dumped lines to CV.Valid.VLine (Driver `validate`); an instruction outside the "
+           "reasoned set (JSR, PHA/PLA, BIT, indirect JMP, unknown mnemonics) is an arbitrary but equal function of the machine state in both programs that continues at the next line; "
+           "decimal mode and interrupts are not modelled",
+           "a function the validator does not accept (about 3%: carry not provably dead behind a folded compare, PLA/PHA pair, load moved over two SEC) is decided by co-execution only"]
 
 EXEMPLARS = []
 
@@ -27,6 +32,42 @@ def classify(src, result0):
     if inl:
         return "inline-drops-protected"
     return "O0-vs-O1-differs"
+
+
+def validate_program(chk, m, r, src, level):
+    """CV.Valid.validate (proved sound: CV.C02.validated_function_equivalent) on every function of a compiled
+    program: `generated` = what the code generator produced, `optimized` = what the real optimiser made of it.
+    Returns the number of functions the validator does not certify (no violation: they are left to co-execution)."""
+    env, init, ports, regions = prog.layout(r["vars"])
+    ok1, _ = prog.load(m, "va", r, which="generated", env=env, ports=ports)
+    ok2, _ = prog.load(m, "vb", r, which="optimized", env=env, ports=ports)
+    if not (ok1 and ok2):
+        chk.count("validator_unloadable"); return 0
+    bad = 0
+    for f in r["funcs"]:
+        if f["generated"] is None:
+            continue
+        a = m.req("validate va vb %s" % f["name"])
+        if a.startswith("ok accepted"):
+            chk.count("validator_certified_functions")
+            n = int(a.split()[2])
+            chk.count("validator_certified_changed_lines", n)
+            if n:
+                chk.count("validator_certified_functions_with_changes")
+        elif a.startswith("ok rejected"):
+            bad += 1
+            k = int(a.split()[2])
+            g = f["generated"]["lines"]
+            why = g[k][1] if k < len(g) and g[k][0] == "I" else "other"
+            chk.count("validator_uncertified_functions")
+            chk.count("validator_uncertified_at_" + why)
+            if len(chk.coverage.setdefault("uncertified_samples", [])) < 6:
+                chk.coverage["uncertified_samples"].append({"function": unhx(f["name"]), "level": level, "line": k,
+                    "before": [show_line(l) for l in g[max(0, k - 3):k + 4]],
+                    "after": [show_line(l) for l in f["optimized"]["lines"][max(0, k - 3):k + 4]]})
+        else:
+            chk.count("validator_no_answer")
+    return bad
 
 
 def run(chk):
@@ -54,8 +95,14 @@ def run(chk):
         mismatch = r.get("status") != "ok" or a != "ok %d %s" % (r["count"], toks_of_lines(r["code"]["lines"]))
         if r.get("status") == "ok" and (r["count"] > 0 or mismatch):
             before = gasm.run_vector(m, "c02v", v, it)
-            after = gasm.run_vector(m, "c02v", r["code"]["lines"], it)
+            after = gasm.run_vector(m, "c02w", r["code"]["lines"], it)
             chk.count("probe_executions")
+            verdict = m.req("validate c02v c02w %s" % hx("f")) if before and after else ""
+            certified = verdict.startswith("ok accepted")
+            chk.count("probe_certified" if certified else "probe_uncertified")
+            if certified and before and after and any(b is not None and b != c for b, c in zip(before, after)):
+                chk.tie_broken("a pair the proved validator accepts behaves differently on the 6502 model: loader or execution model is wrong",
+                               {"input": [show_line(l) for l in v], "optimized": [show_line(l) for l in r["code"]["lines"]]})
             if before and after:
                 for b, c in zip(before, after):
                     if b is not None and b != c:
@@ -89,7 +136,9 @@ def run(chk):
             chk.count("tie_opt_functions")
             if a != "ok %d %s" % (f["counts"][0], toks_of_lines(f["optimized"]["lines"])):
                 chk.tie_broken("optimize on a compiled function: model and code disagree", {"source": src, "function": unhx(f["name"])})
-        states, lay = coexec.init_states(r0, nstates, seed=stable_hash(src))
+        # translation validation: every function the optimiser produced is put before the proved validator
+        uncertified = validate_program(chk, m, r1, src, 1)
+        states, lay = coexec.init_states(r0, nstates * (3 if uncertified else 1), seed=stable_hash(src))
         base, bad = coexec.run_all(m, "c02", r0, states, lay)
         if base is None:
             chk.count("unloadable"); continue
@@ -104,6 +153,8 @@ def run(chk):
             texts[level] = r["out"]
             if level > 1 and r["out"] == texts.get(1):
                 chk.count("levels_textually_equal"); continue
+            if level > 1:
+                validate_program(chk, m, r, src, level)
             outs, bad = coexec.run_all(m, "c02", r, states, lay)
             if outs is None:
                 chk.count("unloadable"); continue
